@@ -64,3 +64,10 @@ func TestSomeNotSequence(t *testing.T) {
 		PanicType: slip.TypeErrorSymbol,
 	}).Test(t)
 }
+
+func TestSomeValue(t *testing.T) {
+	(&sliptest.Function{
+		Source: `(some (lambda (x) (if (evenp x) (* x 10) nil)) '(1 2 3))`,
+		Expect: "20",
+	}).Test(t)
+}
